@@ -11,10 +11,11 @@ import numpy as np
 from vf import contracts, foamdict, hexconv, lattice, util
 
 ID = "C05"
-BUDGET = {"quick": 2500, "thorough": 80000}
+BUDGET = {"quick": 1800, "thorough": 60000}
 REQUIRED = ["contract:VertexList.add", "judged:shared-node", "judged:merged-pair-disjoint", "judged:insertion-order-pair",
             "judged:near-miss-kept-apart", "judged:slave-copy-shared-on-slave-side", "judged:direct-add-permuted-patches",
-            "judged:pairs-meeting-at-a-node", "judged:merge-declared-after-first-assembly"]
+            "judged:pairs-meeting-at-a-node", "judged:merge-declared-after-first-assembly",
+            "judged:all-insertion-orders-of-a-small-assembly"]
 MIN_KEYS = 40
 RULE = (
     "lattice assemblies whose coincident corners are perturbed by < 0.3*TOL (must merge), optional near-miss copies of a "
@@ -103,6 +104,7 @@ def gen_case(ctx):
     case["order2"] = order2
     case["far"] = far
     case["late_merge"] = rng.random() < 0.4
+    case["all_orders"] = rng.random() < 0.25
     return case
 
 
@@ -178,6 +180,12 @@ def run_case(ctx, case):
     nblocks = len(case["blocks"])
     results = []
     runs = [("order1", list(range(nblocks))), ("order2", case["order2"])]
+    if nblocks <= 4 and case.get("all_orders"):
+        # exhaustive over insertion orders for small assemblies
+        for perm in itertools.permutations(range(nblocks)):
+            if list(perm) not in (runs[0][1], runs[1][1]):
+                runs.append((f"order{perm}", list(perm)))
+        ctx.count("judged:all-insertion-orders-of-a-small-assembly")
     if case["pairs"] and case.get("late_merge"):
         runs.append(("late-merge", list(range(nblocks))))
         ctx.count("judged:merge-declared-after-first-assembly")
@@ -239,12 +247,13 @@ def run_case(ctx, case):
                          for i in used)
         results.append(part)
     ctx.count("judged:insertion-order-pair")
-    if results[0] != results[1]:
-        ctx.violation("partition-depends-on-insertion-order", f"order {case['order2']} groups corners differently from the natural order")
-        return
-    if len(results) == 3 and results[2] != results[0]:
-        ctx.violation("partition-depends-on-when-merge-was-declared", "merge_patches after assemble + clear + assemble groups corners differently")
-        return
+    for (tag, order), part in zip(runs[1:], results[1:]):
+        if part != results[0]:
+            if tag == "late-merge":
+                ctx.violation("partition-depends-on-when-merge-was-declared", "merge_patches after assemble + clear + assemble groups corners differently")
+            else:
+                ctx.violation("partition-depends-on-insertion-order", f"order {order} groups corners differently from the natural order")
+            return
     # coverage counters / key
     nodes = {}
     for bi in range(nblocks):
